@@ -79,6 +79,16 @@ func (o c08Obj) MarshalLogObject(enc zapcore.ObjectEncoder) error {
 	return o.err
 }
 
+// a terminal hook that returns (as test hooks do): the CheckedEntry goes back to the pool with the
+// hook still set.  It must only ever see the entry it was installed for.
+type c08Hook struct{ msg string }
+
+func (h c08Hook) OnWrite(ce *zapcore.CheckedEntry, _ []zapcore.Field) {
+	if ce.Message != h.msg {
+		panic("a hook of an earlier entry fired on a foreign entry: " + ce.Message)
+	}
+}
+
 type c08PanicObj struct{}
 
 func (c08PanicObj) MarshalLogObject(zapcore.ObjectEncoder) error { panic("marshaler panic") }
@@ -283,10 +293,18 @@ func c08Probes(seed uint64) []*c08Probe {
 const c08NKinds = 14
 
 // executes one history operation; returns its abstraction and a class letter
-func c08HistOp(r *RNG, kind int) (SX, string) {
+func c08HistOp(r *RNG, kind int) (desc SX, class string, unexpected string) {
 	a, b, c, d, e, f := r.Intn(4), r.Intn(3), r.Intn(2), r.Intn(3), r.Intn(3), r.Intn(4)
+	// a panic that reaches quiet was not part of the script of the operation
+	var mu sync.Mutex
 	quiet := func(fn func()) {
-		defer func() { recover() }()
+		defer func() {
+			if e := recover(); e != nil {
+				mu.Lock()
+				unexpected = fmt.Sprintf("history operation kind %d panicked: %v", kind, e)
+				mu.Unlock()
+			}
+		}()
 		fn()
 	}
 	switch kind {
@@ -295,14 +313,14 @@ func c08HistOp(r *RNG, kind int) (SX, string) {
 			core := zapcore.NewCore(zapcore.NewJSONEncoder(c08Cfg()), &c08Sink{}, zapcore.DebugLevel)
 			_ = core.Write(zapcore.Entry{Message: "h", LoggerName: "hist", Stack: "st"}, c08Fields(a, b, c, d, e, f, 0))
 		})
-		return c08Abs(0, a, b, c, d, e, f), "j"
+		return c08Abs(0, a, b, c, d, e, f), "j", unexpected
 	case 1: // simple console write
 		quiet(func() {
 			core := zapcore.NewCore(zapcore.NewConsoleEncoder(c08Cfg()), &c08Sink{}, zapcore.DebugLevel)
 			_ = core.Write(zapcore.Entry{Message: "h", LoggerName: "hist", Caller: zapcore.EntryCaller{Defined: true, File: "/a/b/c.go", Line: 7}},
 				c08Fields(a, b, c, d, e, f, 0))
 		})
-		return c08Abs(1, a, b, c, d, e, f), "c"
+		return c08Abs(1, a, b, c, d, e, f), "c", unexpected
 	case 2: // With (encoder clones kept alive), then a write through the derived core
 		quiet(func() {
 			var core zapcore.Core = zapcore.NewCore(zapcore.NewJSONEncoder(c08Cfg()), &c08Sink{}, zapcore.DebugLevel)
@@ -313,7 +331,7 @@ func c08HistOp(r *RNG, kind int) (SX, string) {
 			c3 := c2.With(c08Fields(1, 1, 0, 1, 0, 0, 0))
 			_ = c3.Write(zapcore.Entry{Message: "w"}, nil)
 		})
-		return c08Abs(2, a, b, c, d, e, f), "w"
+		return c08Abs(2, a, b, c, d, e, f), "w", unexpected
 	case 3: // Logger call with caller / stack, tee, maybe a failing sink
 		fl := r.Intn(8)
 		quiet(func() {
@@ -327,41 +345,48 @@ func c08HistOp(r *RNG, kind int) (SX, string) {
 			lg, _, _, _ := c08Logger(false, true, fl&1 != 0, opts...)
 			lg.Info("hist call", c08Fields(a, b, c, d, e, f, 0)...)
 		})
-		return c08Abs(3, a, b, c, d, e, fl+8*4), "l"
+		return c08Abs(3, a, b, c, d, e, fl+8*4), "l", unexpected
 	case 4: // zap.Stack
 		quiet(func() {
 			lg, _, _, _ := c08Logger(true, false, false)
 			lg.Info("s", zap.Stack("stack"))
 		})
-		return c08Abs(4, 0, 0, 0, 0, 0, 5), "s"
+		return c08Abs(4, 0, 0, 0, 0, 0, 5), "s", unexpected
 	case 5: // two garbage collections: every pool is emptied
 		runtime.GC()
 		runtime.GC()
-		return c08Abs(5, 0, 0, 0, 0, 0, 0), "g"
+		return c08Abs(5, 0, 0, 0, 0, 0, 0), "g", unexpected
 	case 6, 7: // rich encoder case
 		ec := genEncCase(r.Fork(), r.Chance(30))
 		ec.runJSON(kind == 7)
-		return c08Abs(kind-6, len(ec.fields), 1, 1, 1, 1, 1), "r"
+		return c08Abs(kind-6, len(ec.fields), 1, 1, 1, 1, 1), "r", unexpected
 	case 8: // big entries: buffers grow far beyond their initial capacity
 		n := 300 + r.Intn(3000)
 		quiet(func() {
 			lg, _, _, _ := c08Logger(r.Bool(), true, false)
 			lg.Info(strings.Repeat("big", n), c08Fields(2, 1, 0, 1, 0, 0, n)...)
 		})
-		return c08Abs(0, 2, 1, 0, 1, 0, 0), "b"
+		return c08Abs(0, 2, 1, 0, 1, 0, 0), "b", unexpected
 	case 9: // a panicking marshaler: pooled objects of that call are never returned
 		quiet(func() {
 			lg, _, _, _ := c08Logger(r.Bool(), false, false, zap.AddCaller(), zap.AddStacktrace(zapcore.DebugLevel))
-			lg.Info("p", zap.Namespace("open"), zap.Reflect("r", 1), zap.Object("boom", c08PanicObj{}))
+			func() {
+				defer func() {
+					if e := recover(); e != nil && fmt.Sprint(e) != "marshaler panic" {
+						panic(e)
+					}
+				}()
+				lg.Info("p", zap.Namespace("open"), zap.Reflect("r", 1), zap.Object("boom", c08PanicObj{}))
+			}()
 		})
-		return c08Abs(0, 1, 1, 0, 1, 0, 0), "p"
+		return c08Abs(0, 1, 1, 0, 1, 0, 0), "p", unexpected
 	case 10: // deep stack: Stack.storage is replaced by a larger one
 		n := 70 + r.Intn(200)
 		quiet(func() {
 			lg, _, _, _ := c08Logger(false, false, false, zap.AddStacktrace(zapcore.DebugLevel))
 			c08Deep(n, func() { lg.Info("deep", zap.Stack("again")) })
 		})
-		return c08Abs(3, 0, 0, 0, 0, 0, 4+8*n), "d"
+		return c08Abs(3, 0, 0, 0, 0, 0, 4+8*n), "d", unexpected
 	case 11: // direct use of the Encoder API: Clone, open namespaces, EncodeEntry, Free
 		quiet(func() {
 			var enc zapcore.Encoder = zapcore.NewJSONEncoder(c08Cfg())
@@ -381,26 +406,38 @@ func c08HistOp(r *RNG, kind int) (SX, string) {
 				buf.Free()
 			}
 		})
-		return c08Abs(2, a, b, c, d, e, f), "e"
+		return c08Abs(2, a, b, c, d, e, f), "e", unexpected
 	case 12: // checked entries that are never written; terminal hooks
 		quiet(func() {
 			lg, _, _, _ := c08Logger(false, false, false, zap.WithFatalHook(zapcore.WriteThenGoexit), zap.AddCaller())
 			_ = lg.Check(zapcore.InfoLevel, "never written")
+			l3, _, _, _ := c08Logger(true, true, true, zap.WithFatalHook(c08Hook{"returning fatal"}), zap.WithPanicHook(c08Hook{"returning panic"}))
+			l3.Fatal("returning fatal", zap.Int("a", 1))
+			l3.Panic("returning panic")
 			if ce := lg.Check(zapcore.WarnLevel, "written twice"); ce != nil {
 				ce.Write(zap.Int("n", 1))
 			}
 			done := make(chan struct{})
+			var gp interface{}
 			go func() {
 				defer close(done)
+				defer func() { gp = recover() }()
 				lg.Fatal("goexit", zap.Reflect("r", 1))
 			}()
 			<-done
+			if gp != nil {
+				panic(gp)
+			}
 			func() {
-				defer func() { recover() }()
+				defer func() {
+					if e := recover(); e != nil && fmt.Sprint(e) != "panics" {
+						panic(e)
+					}
+				}()
 				lg.Panic("panics", zap.Namespace("x"))
 			}()
 		})
-		return c08Abs(3, 1, 1, 0, 1, 0, 2+8*2), "k"
+		return c08Abs(3, 1, 1, 0, 1, 0, 2+8*2), "k", unexpected
 	default: // a burst of concurrent logging on other loggers
 		var wg sync.WaitGroup
 		for g := 0; g < 4; g++ {
@@ -409,12 +446,16 @@ func c08HistOp(r *RNG, kind int) (SX, string) {
 			go func() {
 				defer wg.Done()
 				for i := 0; i < 6; i++ {
-					c08HistOp(rr, rr.Intn(5))
+					if _, _, u := c08HistOp(rr, rr.Intn(5)); u != "" {
+						mu.Lock()
+						unexpected = u
+						mu.Unlock()
+					}
 				}
 			}()
 		}
 		wg.Wait()
-		return c08Abs(1, a, b, c, d, e, f), "x"
+		return c08Abs(1, a, b, c, d, e, f), "x", unexpected
 	}
 }
 
@@ -443,7 +484,17 @@ func c08(c *Ctx) {
 	// lines by position
 	var side []func()
 	info := func(k, v string) { side = append(side, func() { c.Info(k, v) }) }
-	viol := func(what string, replay SX) { side = append(side, func() { c.Viol(what, replay) }) }
+	var sideMu sync.Mutex
+	seenViol := map[string]bool{}
+	viol := func(what string, replay SX) {
+		sideMu.Lock()
+		defer sideMu.Unlock()
+		if seenViol[what] || len(seenViol) >= 6 { // one replay per distinct symptom is enough
+			return
+		}
+		seenViol[what] = true
+		side = append(side, func() { c.Viol(what, replay) })
+	}
 	defer func() {
 		for _, f := range side {
 			f()
@@ -462,8 +513,26 @@ func c08(c *Ctx) {
 		in := L(I(p.kind), p.sx, B(fresh[p.id]), L(hist...), c08Adv(r, 12), p.abs)
 		c.Emit(in, L(B(out)), map[string]string{"nt": nt, "class": class + ":" + p.label})
 	}
+	// a run that already shows many differences is cut short (a broken pool can make buffers
+	// grow without bound); on correct code this never triggers
+	mismatches := 0
+	type c08Abort struct{}
+	defer func() {
+		if e := recover(); e != nil {
+			if _, ok := e.(c08Abort); !ok {
+				panic(e)
+			}
+			info("aborted_after_mismatches", strconv.Itoa(mismatches))
+		}
+	}()
 	observe := func(p *c08Probe, hist []SX, classes string, class string) {
+		if mismatches > 150 {
+			panic(c08Abort{})
+		}
 		out, pm := c08call(p)
+		if !bytes.Equal(out, fresh[p.id]) {
+			mismatches++
+		}
 		if pm != "" {
 			viol("probe "+p.label+" panicked after history ["+classes+"]: "+pm, L(I(p.id), L(hist...)))
 			out = []byte("PANIC " + pm)
@@ -517,9 +586,12 @@ func c08(c *Ctx) {
 				if k == 5 && rep > 0 {
 					break
 				}
-				h, cl := c08HistOp(r, k)
+				h, cl, u := c08HistOp(r, k)
 				hist = append(hist, h)
 				cls += cl
+				if u != "" {
+					viol(u, L(I(k), L(hist...)))
+				}
 			}
 			observe(p, hist, cls, "pair")
 		}
@@ -570,7 +642,9 @@ func c08(c *Ctx) {
 						case <-stop:
 							return
 						default:
-							c08HistOp(rr, rr.Intn(13))
+							if _, _, u := c08HistOp(rr, rr.Intn(13)); u != "" {
+								viol("background: "+u, L())
+							}
 						}
 					}
 				}()
@@ -581,9 +655,12 @@ func c08(c *Ctx) {
 			if r.Chance(40) {
 				k = r.Intn(5) // the cheap, pool-heavy kinds dominate
 			}
-			x, cl := c08HistOp(r, k)
+			x, cl, u := c08HistOp(r, k)
 			hist = append(hist, x)
 			cls += cl
+			if u != "" {
+				viol(u, L(I(k), L(hist...)))
+			}
 			if at[i] {
 				for j := 0; j < 3; j++ {
 					p := probes[r.Intn(len(probes))]
